@@ -27,6 +27,7 @@ sets = [
                                                    "float_integer_part", "round"]])),
     ("C20", lambda: prolog.replay_string_suffix_compare([])),
     ("C13", lambda: prolog.replay_term_order([])),
+    ("C13atoms", lambda: prolog.replay_atom_order([])),
 ]
 only = sys.argv[1:]
 bad = 0
